@@ -1,6 +1,6 @@
 """C14 (special nodes), C15 (reflink modes), C17 (gitignore wiring), C11 (holes),
 C12 (progress stream), C16 (no side effects before validation)."""
-from cfg import cfg_of, Prov, op_local, op_place, defuse, place_fields, callee_orig
+from cfg import cfg_of, Prov, op_local, op_place, defuse, place_fields, callee_orig, callee_path
 from engine import Ob, mkkey, anchor_ob
 import q
 import r_order as ro
@@ -156,136 +156,250 @@ def must_fail_avoiding(fx, fn, start, blocked_edges, rule, key, what, loc=""):
 # --------------------------------------------------------------------------
 
 DATA_COPY = {COPY_FILE_RANGE, PWRITE, WRITE, WRITE_ALL, POOL_EXECUTE}
+REFLINK_ADT = "libxcp::config::Reflink"
+
+
+def clone_fns(fx):
+    """Workspace functions that issue ioctl(FICLONE) themselves."""
+    import p_role
+    out = {}
+    for f in ro.fns_in_scope(fx):
+        for bi, t in q.calls_to(f, IOCTL):
+            if p_role._is_ficlone(f, t):
+                out.setdefault(f.path, []).append((bi, t))
+    return out
+
+
+def _mode_local(fn, l, adt, field, depth=0):
+    """Is local l a copy of <place>.field (e.g. `let mode = self.config.reflink`)?"""
+    if depth > 4:
+        return False
+    defs = defuse(fn).defs.get(l, [])
+    if not defs:
+        return False
+    for site, whole in defs:
+        if site.is_term:
+            return False
+        rv = site.node["rv"]
+        pl = None
+        if rv["k"] == "use":
+            pl = op_place(rv["op"])
+        elif rv["k"] == "ref":
+            pl = rv["pl"]
+        if pl is None:
+            return False
+        fl = place_fields(pl)
+        if fl and fl[-1] == (adt, field):
+            continue
+        if not fl and _mode_local(fn, pl["l"], adt, field, depth + 1):
+            continue
+        return False
+    return True
+
+
+def mode_match_switches(fn, adt, field):
+    """Discriminant switches on <place>.field or on a local copy of it: [(switch block, {variant: target})]."""
+    du = defuse(fn)
+    out = []
+    for bi, b in enumerate(fn.blocks):
+        if b.get("cleanup"):
+            continue
+        for s in b["stmts"]:
+            rv = s["rv"]
+            if rv["k"] != "discr":
+                continue
+            fl = place_fields(rv["pl"])
+            if not ((fl and fl[-1] == (adt, field)) or (not fl and _mode_local(fn, rv["pl"]["l"], adt, field))):
+                continue
+            vmap = {v["val"]: v["name"] for v in rv.get("variants", [])}
+            for site, how in du.uses.get(s["lhs"]["l"], []):
+                if how == "switch" and site.is_term:
+                    t = site.node
+                    m = {}
+                    for v, tb in t["targets"]:
+                        m[vmap.get(str(v), str(v))] = tb
+                    for n in vmap.values():
+                        m.setdefault(n, t["otherwise"])
+                    out.append((site.bb, m))
+    return out
+
+
+def assume_mode(fn, adt, field, mode, variants):
+    """Edges that cannot be taken when <config>.field == mode: the other arms of every match on it and the
+    contradicting side of every `== Variant` / `!= Variant` test.  Returns (blocked edges, number of tests)."""
+    cfg = cfg_of(fn)
+    blocked = []
+    tests = 0
+    for sb, m in mode_match_switches(fn, adt, field):
+        tests += 1
+        keep = m.get(mode)
+        for s_ in cfg.succ[sb]:
+            if s_ != keep:
+                blocked.append((sb, s_))
+    for v in variants:
+        for (u, tgt, val) in enum_eq_edges(fn, adt, field, v):
+            tests += 1
+            if (v == mode) != val:
+                blocked.append((u, tgt))
+    return blocked, tests
 
 
 def c15(ctx):
+    """The clone-mode rules, anchored semantically: the *mode function* is whatever libxcp function branches on
+    Config.reflink, a *clone request* is a call that reaches an ioctl(FICLONE); the mode function's inlined view
+    is analysed once per assumed mode (edges contradicting the assumption removed)."""
+    import views
     fx = ctx.fx("A")
     obs = []
-    # who may clone
-    obs += ro.callers_within(fx, REFLINK, {TRY_REFLINK}, "R-WHO", "clone requests only through try_reflink")
-    if not q.callgraph(fx).callers.get(REFLINK):
-        obs.append(anchor_ob("R-WHO", "libfs::linux::reflink has no caller"))
+    cl = clone_fns(fx)
     n = 0
-    for f in ro.fns_in_scope(fx):
-        for bi, t in q.calls_to(f, IOCTL):
-            import p_role
-            if p_role._is_ficlone(f, t):
-                ok = f.path == REFLINK
-                obs.append(Ob("R-WHO", mkkey("R-WHO", f.path, "ioctl(FICLONE)", n), ok, q.loc_of(t), f.path,
-                              "FICLONE issued in %s" % f.path, None if ok else dict(allowed=REFLINK)))
-                n += 1
+    for p_, sites in sorted(cl.items()):
+        for bi, t in sites:
+            ok = fx.fns[p_].crate == "libfs"
+            obs.append(Ob("R-WHO", mkkey("R-WHO", "libfs", "ioctl(FICLONE)", n), ok, q.loc_of(t), p_,
+                          "FICLONE issued in %s" % p_, None if ok else dict(note="clone ioctl outside libfs")))
+            n += 1
     if n == 0:
         obs.append(anchor_ob("R-WHO", "no ioctl(FICLONE) found"))
-    # mode dispatch
-    f = fx.fn(TRY_REFLINK)
+    modefn = views.reflink_mode_fn(fx)
+    f = views.view(fx, modefn, depth=6) if modefn else None
     if f is None:
-        obs.append(anchor_ob("R-TABLE", TRY_REFLINK))
-    else:
-        ve = variant_edges(f, CONFIG, "reflink")
-        if not ve:
-            obs.append(anchor_ob("R-TABLE", "try_reflink does not switch on config.reflink"))
-        cg = q.callgraph(fx)
-        for (sb, m, other) in ve[:1]:
-            for var in ("Never", "Always", "Auto"):
-                if var not in m:
-                    obs.append(anchor_ob("R-TABLE", "Reflink::%s arm" % var))
+        obs.append(anchor_ob("R-TABLE", "a libxcp function that branches on Config.reflink"))
+        ctx.add(obs)
+        return
+    LAB = "reflink-mode-fn"
+    # who may clone: every call of a clone function lies inside the mode function's view
+    insites = set(views.site(f, bi)[1:3] for bi, t in f.calls() if q.names(t)[1] in cl)
+    k = 0
+    total = 0
+    for g in ro.fns_in_scope(fx, crates=("libxcp", "libfs")):
+        for bi, t in g.calls():
+            if q.names(t)[1] in cl:
+                total += 1
+                ok = (t["span"]["file"], t["span"]["line"]) in insites
+                obs.append(Ob("R-WHO", mkkey("R-WHO", g.path, "clone-request", k), ok, q.loc_of(t), g.path,
+                              "clone requested %s the function that decides by Config.reflink" % ("inside" if ok else "OUTSIDE"),
+                              None if ok else dict(mode_fn=modefn)))
+                k += 1
+    if total == 0:
+        obs.append(anchor_ob("R-WHO", "the clone function has no caller"))
+    cfg = cfg_of(f)
+    sig = r_err.signal_blocks(f)
+    variants = [v["name"] for v in fx.adts.get(REFLINK_ADT, {}).get("variants", [])]
+    if sorted(variants) != ["Always", "Auto", "Never"]:
+        obs.append(anchor_ob("R-TABLE", "Reflink variants Always/Auto/Never (found %s)" % variants))
+    clone_blocks = [b_ for b_, t_, h_ in ro.performers(fx, f, set(cl))]
+    if not clone_blocks:
+        obs.append(anchor_ob("R-TABLE", "the mode function requests a clone"))
+    fe = []
+    for c in cl:
+        fe += ro.edge_target(f, "call", c, False)
+    if not fe:
+        obs.append(anchor_ob("R-TABLE", "mode function: no branch on the clone result"))
+    for mode in ("Never", "Always", "Auto"):
+        be, tests = assume_mode(f, CONFIG, "reflink", mode, variants)
+        if tests == 0:
+            obs.append(anchor_ob("R-TABLE", "mode function tests Config.reflink"))
+            continue
+        r = cfg.reach([0], blocked_edges=be)
+        clones = any(b_ in r for b_ in clone_blocks)
+        want = mode != "Never"
+        obs.append(Ob("R-TABLE", mkkey("R-TABLE", LAB, "Reflink::" + mode, 0, "clones"), clones == want, f.loc(), modefn,
+                      "with reflink=%s a clone request is %s (must be %s)" % (
+                          mode.lower(), "reachable" if clones else "unreachable", "reachable" if want else "unreachable"),
+                      None if clones == want else dict(assumed=mode)))
+        if mode == "Never":
+            continue
+        # cannot return (non-failing) without having asked for the clone
+        r2 = cfg.reach([0], blocked=set(sig) | set(clone_blocks), blocked_edges=be)
+        leak = [b_ for b_ in cfg.returns if b_ in r2]
+        obs.append(Ob("R-ORDER", mkkey("R-ORDER", LAB, "Reflink::" + mode, 0, "attempt-unless-never"), not leak, f.loc(), modefn,
+                      "with reflink=%s the function cannot return Ok without a clone attempt: %s" % (mode.lower(), not leak),
+                      None if not leak else dict(returns=leak)))
+        for k2, (u, v) in enumerate(fe):
+            r3 = cfg.reach([v], blocked=set(sig), blocked_edges=be) if v not in sig else set()
+            rets = [b_ for b_ in cfg.returns if b_ in r3]
+            if mode == "Always":
+                ok = not rets
+                obs.append(Ob("R-TABLE", mkkey("R-TABLE", LAB, "always-insists", k2), ok, q.loc_of(f.blocks[u]["term"]), modefn,
+                              "reflink=always and the clone did not happen: %s" % (
+                                  "every path fails" if ok else "a return is reachable without a failure signal"),
+                              None if ok else dict(start="bb%d" % v)))
+            else:
+                ok = bool(rets)
+                obs.append(Ob("R-TABLE", mkkey("R-TABLE", LAB, "auto-falls-back", k2), ok, q.loc_of(f.blocks[u]["term"]), modefn,
+                              "reflink=auto and the clone did not happen: a non-failing return exists: %s" % ok,
+                              None if ok else dict(start="bb%d" % v)))
+    # the clone function asks the kernel on every call
+    for c, sites in sorted(cl.items()):
+        g0 = fx.fns[c]
+        cfg0 = cfg_of(g0)
+        io = [b_ for b_, t_ in sites]
+        r = cfg0.reach([0], blocked=set(io))
+        leak = [b_ for b_ in cfg0.returns if b_ in r]
+        obs.append(Ob("R-ORDER", mkkey("R-ORDER", "clone-fn", IOCTL, 0, "always-asks-kernel"), not leak, g0.loc(), c,
+                      "the clone function asks the kernel on every call (no remembered answer): %s" % (not leak),
+                      None if not leak else dict(returns=leak)))
+    # clone before any data copy: in every worker role, whatever moves file data in the Copy arm is
+    # control-dependent on the mode function having answered `false`; no other role moves file data
+    nhosts = 0
+
+    def gated_copies(lab, w, depth, seen):
+        """Every data-moving call in view w is control-dependent on `mode function == false`, here or -- when the
+        call hands the work to a closure / helper that is not part of the view -- inside that callee."""
+        nonlocal nhosts
+        for n2, (bi, t, how) in enumerate(ro.performers(fx, w, DATA_COPY)):
+            ok, why = q.gated(w, bi, "call", modefn, False)
+            if not ok and how != "direct" and depth < 4:
+                subs = [c for c in [q.names(t)[1]] + list((t.get("fn") or {}).get("fnvals", []))
+                        if c in fx.fns and c != modefn and ro.performers(fx, fx.fns[c], DATA_COPY) and c not in seen]
+                if subs:
+                    for c in subs:
+                        gated_copies(lab, views.view(fx, c, depth=6), depth + 1, seen | {c})
                     continue
-                region = edge_region(f, sb, m[var]) | ({m[var]} if m[var] != other or True else set())
-                # a shared arm target (Always | Auto) is reached by two edges of the same switch: edge_region of
-                # a (u,v) pair covers both since edges are identified by blocks
-                r = cg.reach(f.path, blocks=region)
-                clones = REFLINK in r
-                want = var != "Never"
-                ok = clones == want
-                obs.append(Ob("R-TABLE", mkkey("R-TABLE", TRY_REFLINK, "Reflink::" + var, 0, "clones"), ok, f.loc(),
-                              TRY_REFLINK, "Reflink::%s arm %s a clone request (must %s)" % (
-                                  var, "reaches" if clones else "does not reach", "reach" if want else "not reach"),
-                              None if ok else dict(region=sorted(region))))
-        # Always insists: with 'mode != Always' edges removed, a failed clone cannot return Ok
-        fe = ro.edge_target(f, "call", REFLINK, False)
-        not_always = [(u, v) for (u, v, val) in enum_eq_edges(f, CONFIG, "reflink", "Always") if val is False]
-        is_always = [(u, v) for (u, v, val) in enum_eq_edges(f, CONFIG, "reflink", "Always") if val is True]
-        if not fe:
-            obs.append(anchor_ob("R-TABLE", "try_reflink: no branch on the clone result"))
-        if not not_always:
-            obs.append(anchor_ob("R-TABLE", "try_reflink: no comparison of config.reflink with Reflink::Always"))
-        for k, (u, v) in enumerate(fe):
-            obs.append(must_fail_avoiding(fx, f, v, not_always, "R-TABLE",
-                                          mkkey("R-TABLE", TRY_REFLINK, "always-insists", k),
-                                          "reflink=always and the clone did not happen",
-                                          loc=q.loc_of(f.blocks[u]["term"])))
-            # auto falls back: with 'mode == Always' edges removed, the failed clone returns Ok(false) somewhere
-            cfg = cfg_of(f)
-            sig = r_err.signal_blocks(f)
-            r = cfg.reach([v], blocked=set(sig), blocked_edges=is_always)
-            okf = any(b in r for b in cfg.returns)
-            obs.append(Ob("R-TABLE", mkkey("R-TABLE", TRY_REFLINK, "auto-falls-back", k), okf,
-                          q.loc_of(f.blocks[u]["term"]), TRY_REFLINK,
-                          "reflink=auto and the clone did not happen: a non-failing return exists: %s" % okf,
-                          None if okf else dict(start="bb%d" % v)))
-    # outside the Never arm, no return without having asked for the clone
-    if f is not None and ve:
-        cfg = cfg_of(f)
-        sig = r_err.signal_blocks(f)
-        sb, m, other = ve[0]
-        never_edges = [(sb, m["Never"])] if "Never" in m else []
-        perf = [b_ for b_, t_, h_ in ro.performers(fx, f, REFLINK)]
-        r = cfg.reach([0], blocked=set(sig) | set(perf), blocked_edges=never_edges)
-        leak = [b_ for b_ in cfg.returns if b_ in r]
-        obs.append(Ob("R-ORDER", mkkey("R-ORDER", TRY_REFLINK, REFLINK, 0, "attempt-unless-never"), not leak, f.loc(), TRY_REFLINK,
-                      "unless the mode is Never, try_reflink cannot return without a clone attempt: %s" % (not leak),
-                      None if not leak else dict(returns=leak, note="a path returns Ok without calling libfs::reflink")))
-    g0 = fx.fn(REFLINK)
-    if g0 is not None:
-        cfg = cfg_of(g0)
-        io = [b_ for b_, t_ in q.calls_to(g0, IOCTL)]
-        r = cfg.reach([0], blocked=set(io))
-        leak = [b_ for b_ in cfg.returns if b_ in r]
-        obs.append(Ob("R-ORDER", mkkey("R-ORDER", REFLINK, IOCTL, 0, "always-asks-kernel"), bool(io) and not leak, g0.loc(), REFLINK,
-                      "libfs::reflink asks the kernel on every call (no remembered answer): %s" % (bool(io) and not leak),
-                      None if (io and not leak) else dict(returns=leak)))
-    # clone before any data copy, in every function that asks for the clone
-    hosts = [g for g in ro.fns_in_scope(fx, crates=("libxcp",)) if ro.performers(fx, g, TRY_REFLINK, direct_only=True)]
-    if len(hosts) < 2:
-        obs.append(anchor_ob("R-ORDER", "functions calling try_reflink (found %d, parfile and parblock paths expected)" % len(hosts)))
-    for g in hosts:
-        for n2, (bi, t, how) in enumerate(ro.performers(fx, g, DATA_COPY)):
-            ok, why = q.gated(g, bi, "call", TRY_REFLINK, False)
-            obs.append(Ob("R-ORDER", mkkey("R-ORDER", g.path, q.names(t)[0] or "?", n2, "after-clone-attempt"), ok,
-                          q.loc_of(t), g.path, "data copy %s: %s" % (ro._nm(t), why), None if ok else dict(block="bb%d" % bi)))
-    # no copier path bypasses those hosts
-    obs += ro.callers_within(fx, COPY_BYTES, {COPY_FILE, COPY_SPARSE}, "R-WHO", "byte copier only below copy_file")
-    obs += ro.callers_within(fx, COPY_SPARSE, {COPY_FILE}, "R-WHO", "sparse copier only below copy_file")
-    obs += ro.callers_within(fx, PB_QFR, {PB_QFB, PB_QFB + "::{closure#0}"}, "R-WHO", "block queueing only below queue_file_blocks")
-    obs += ro.callers_within(fx, "libfs::linux::copy_file_bytes", {COPY_BYTES, "libfs::common::copy_file", "libfs::linux::copy_sparse"},
-                             "R-WHO", "kernel copier only below copy_bytes")
-    obs += ro.callers_within(fx, "libfs::linux::copy_file_offset", {PB_QFR + "::{closure#0}"}, "R-WHO",
-                             "offset copier only in block jobs")
-    # errno table of the clone ioctl
-    g = fx.fn(REFLINK)
-    if g is None:
-        obs.append(anchor_ob("R-TABLE", REFLINK))
-    else:
+            nhosts += 1
+            obs.append(Ob("R-ORDER", mkkey("R-ORDER", lab, q.names(t)[0] or "?", n2, "after-clone-attempt:%d" % depth), ok,
+                          q.loc_of(t), lab, "data copy %s: %s" % (ro._nm(t), why), None if ok else dict(block="bb%d" % bi)))
+    for lab, w in views.workers(fx):
+        gated_copies(lab, w, 0, set())
+    if nhosts < 2:
+        obs.append(anchor_ob("R-ORDER", "data-copy sites in the worker roles (found %d)" % nhosts))
+    wl = set(v.inlined_from for lab, v in views.workers(fx))
+    for lab, v in sorted(views.role_views(fx).items()):
+        if v.inlined_from in wl or lab in ENTRY_POINTS or lab == MAIN:
+            continue
+        kinds = __import__("p_thread").thread_roles(fx)[1]
+        if kinds.get(lab) == "pool-job":
+            continue            # block jobs are queued by a (gated) POOL_EXECUTE of a worker role
+        perf = ro.performers(fx, v, DATA_COPY - {POOL_EXECUTE})
+        obs.append(Ob("R-WHO", mkkey("R-WHO", views.label_of(lab) + ":" + ("drop" if lab == DROP else "role"), "data-copy", 0, "none"),
+                      not perf, v.loc(), lab, "role %s moves no file data: %s" % (lab.split("::")[-1], not perf),
+                      None if not perf else dict(sites=[q.loc_of(t) for b_, t, h in perf])))
+    # errno table of the clone ioctl: evaluated on the clone function's inlined view (the mapping may be a helper)
+    for c in sorted(cl):
+        g = views.view(fx, c, depth=4, extra_stop=())
+        # libfs exported functions are in the stop set: inline the clone function's own private helpers only
+        g = __import__("thread").threaded(__import__("inline").inlined(fx, fx.fns[c], 4, stop=tuple(
+            sorted(p2 for p2 in views.stop_set(fx) if p2 != c))))
+        cfgg = cfg_of(g)
+        sigg = r_err.signal_blocks(g)
         found = set()
-        for bi, b in enumerate(g.blocks):
-            t = b["term"]
-            if b.get("cleanup") or t["k"] != "switch" or t.get("op_ty") in ("bool", "isize"):
+        region = set(range(len(g.blocks)))
+        for (u, tgt, idents) in r_err.error_test_edges(g, region):
+            if tgt is None:
                 continue
-            l = op_local(t["op"])
-            if l is None:
-                continue
-            atoms, _f, _s = Prov(g).origins(l)
-            if any(a.kind == "call" and a.what == "std::io::error::Error::raw_os_error" for a in atoms):
-                sig = r_err.signal_blocks(g)
-                cfg = cfg_of(g)
-                for v, tb in t["targets"]:
-                    # the arm must not fail
-                    r = cfg.reach([tb], blocked=set(sig))
-                    if tb != t["otherwise"] and any(x in r for x in cfg.returns):
-                        found.add(int(v))
+            r = cfgg.reach([tgt], blocked=set(sigg)) if tgt not in sigg else set()
+            if any(x in r for x in cfgg.returns):
+                for i in idents:
+                    if isinstance(i, int) and i != 0:
+                        found.add(i)
+                    elif isinstance(i, str):
+                        v_ = r_err.ERRNO.get(i, r_err.ERRNO.get(i[1:] if i.startswith("E") else i))
+                        if v_:
+                            found.add(v_)
         need = {95, 22, 18}   # EOPNOTSUPP, EINVAL, EXDEV
         ok = need <= found
-        obs.append(Ob("R-TABLE", mkkey("R-TABLE", REFLINK, "errno-unsupported", 0), ok, g.loc(), REFLINK,
+        obs.append(Ob("R-TABLE", mkkey("R-TABLE", "clone-fn", "errno-unsupported", 0), ok, g.loc(), c,
                       "errnos mapped to 'clone unsupported': %s (must include EOPNOTSUPP=95, EINVAL=22, EXDEV=18)" % sorted(found),
                       None if ok else dict(found=sorted(found))))
     ctx.add(obs)
@@ -296,7 +410,12 @@ def c15(ctx):
 # --------------------------------------------------------------------------
 
 def filetype_table(fx):
-    import views
+    """Per FileType arm of the walker role: which Operation variant is built, which file-system effects the arm
+    itself performs, and whether the entry is queued: every non-failing path from the arm to the next entry (the
+    WalkDir `next`) or to the role's Ok return passes a Sender<Operation>::send -- or, for directories, none does.
+    The send may sit after the match (a helper that returns the planned Operation), so it is a path property of
+    the variant-threaded view, not a "call inside the arm" test."""
+    import views, p_thread
     obs = []
     f = views.walker_view(fx)
     if f is None:
@@ -304,40 +423,58 @@ def filetype_table(fx):
     sw = type_variant_switches(f, FILETYPE)
     if not sw:
         return [anchor_ob("R-TABLE", "tree_walker does not dispatch on libfs::FileType")]
-    sb, m = sw[0]
-    cg = q.callgraph(fx)
+    cfg = cfg_of(f)
     want = {
-        "File": dict(op="Copy", calls={CB_SEND}, fail=False),
-        "Symlink": dict(op="Link", calls={CB_SEND, "std::fs::read_link"}, fail=False),
-        "Dir": dict(op=None, calls={CREATE_DIR_ALL}, fail=False),
-        "Socket": dict(op="Special", calls={CB_SEND}, fail=False),
-        "Char": dict(op="Special", calls={CB_SEND}, fail=False),
-        "Fifo": dict(op="Special", calls={CB_SEND}, fail=False),
-        "Block": dict(op=None, calls=set(), fail=True),
-        "Other": dict(op=None, calls=set(), fail=True),
+        "File": dict(op="Copy", calls=set(), send=True, fail=False),
+        "Symlink": dict(op="Link", calls={"std::fs::read_link"}, send=True, fail=False),
+        "Dir": dict(op=None, calls={CREATE_DIR_ALL}, send=False, fail=False),
+        "Socket": dict(op="Special", calls=set(), send=True, fail=False),
+        "Char": dict(op="Special", calls=set(), send=True, fail=False),
+        "Fifo": dict(op="Special", calls=set(), send=True, fail=False),
+        "Block": dict(op=None, calls=set(), send=False, fail=True),
+        "Other": dict(op=None, calls=set(), send=False, fail=True),
     }
-    effects = {CB_SEND, CREATE_DIR_ALL, "std::fs::read_link", SYMLINK, FILE_CREATE, MKNODAT, REMOVE_FILE, RENAME}
-    for var, w in want.items():
-        if var not in m:
-            obs.append(anchor_ob("R-TABLE", "FileType::%s arm" % var))
-            continue
-        region = edge_region(f, sb, m[var]) | {m[var]}
-        ops = sorted(set(v for _, v, _ in aggs_in(f, region, OPERATION)))
-        r = q.view_reach(fx, f, region)
-        calls = set(x for x in effects if x in r)
-        key = mkkey("R-TABLE", WALKER, "FileType::" + var, 0, "action")
-        if w["fail"]:
-            o = ro.region_must_fail(fx, f, m[var], "R-TABLE", key, "FileType::%s (unsupported kind)" % var, loc=f.loc())
-            if o.ok and (ops or calls):
-                o.ok, o.status = False, "fail"
-                o.what += "; but the arm also performs %s %s" % (ops, sorted(calls))
-            obs.append(o)
-            continue
-        ok = ops == ([w["op"]] if w["op"] else []) and calls == w["calls"]
-        obs.append(Ob("R-TABLE", key, ok, f.loc(), WALKER,
-                      "FileType::%s -> builds Operation %s, performs %s (want %s, %s)" % (
-                          var, ops, sorted(x.split("::")[-1] for x in calls), w["op"], sorted(x.split("::")[-1] for x in w["calls"])),
-                      None if ok else dict(region=sorted(region))))
+    effects = {CREATE_DIR_ALL, "std::fs::read_link", SYMLINK, FILE_CREATE, MKNODAT, REMOVE_FILE, RENAME}
+    sends = [bi for bi, t in q.calls_to(f, CB_SEND) if "Operation" in " ".join(t.get("arg_tys", []))]
+    heads = [bi for bi, t in f.calls() if (callee_path(t) or "").startswith("<walkdir::") and
+             callee_orig(t) == "core::iter::traits::iterator::Iterator::next"]
+    exits = heads + p_thread.ok_blocks(f)
+    if not sends:
+        obs.append(anchor_ob("R-TABLE", "the walker role sends Operations"))
+    res = {}
+    for sb, m in sw:
+        for var, w in want.items():
+            if var not in m:
+                obs.append(anchor_ob("R-TABLE", "FileType::%s arm" % var))
+                continue
+            region = edge_region(f, sb, m[var]) | {m[var]}
+            ops = sorted(set(v for _, v, _ in aggs_in(f, region, OPERATION)))
+            r = q.view_reach(fx, f, region)
+            calls = set(x for x in effects if x in r)
+            key = mkkey("R-TABLE", WALKER, "FileType::" + var, 0, "action")
+            if w["fail"]:
+                o = ro.region_must_fail(fx, f, m[var], "R-TABLE", key, "FileType::%s (unsupported kind)" % var, loc=f.loc())
+                if o.ok and (ops or calls):
+                    o.ok, o.status = False, "fail"
+                    o.what += "; but the arm also performs %s %s" % (ops, sorted(calls))
+                res.setdefault(key, []).append(o)
+                continue
+            if w["send"]:
+                sent = bool(sends) and cfg.passes_through(sends, m[var], exits)
+            else:
+                sent = not (set(sends) & cfg.reach([m[var]], blocked=set(heads)))
+            ok = ops == ([w["op"]] if w["op"] else []) and calls == w["calls"] and sent
+            res.setdefault(key, []).append(Ob(
+                "R-TABLE", key, ok, f.loc(), WALKER,
+                "FileType::%s -> builds Operation %s, performs %s, %s (want %s, %s, %s)" % (
+                    var, ops, sorted(x.split("::")[-1] for x in calls),
+                    ("queued on every non-failing path" if sent else "NOT queued on every non-failing path") if w["send"]
+                    else ("never queued" if sent else "may be queued"),
+                    w["op"], sorted(x.split("::")[-1] for x in w["calls"]), "queued" if w["send"] else "not queued"),
+                None if ok else dict(region=sorted(region), sends=sends, exits=exits)))
+    for key, lst in res.items():
+        bad = [o for o in lst if not o.ok]
+        obs.append(bad[0] if bad else lst[0])
     # no Operation variant carries a directory; directories are created by the walker itself
     vs = [v["name"] for v in fx.adts.get(OPERATION, {}).get("variants", [])]
     ok = sorted(vs) == ["Copy", "Link", "Special"]
@@ -567,47 +704,58 @@ def c17(ctx):
     GB_NEW = "ignore::gitignore::GitignoreBuilder::new"
     GB_ADD = "ignore::gitignore::GitignoreBuilder::add"
     MATCHED = "ignore::gitignore::Gitignore::matched"
+    import views
+    w = views.walker_view(fx)
+    if w is None:
+        ctx.add([anchor_ob("R-ORDER", "a thread role that iterates a WalkDir")])
+        return
     n = 0
+    for bi, t in q.calls_to(w, GB_NEW):
+        ok, why = q.gated(w, bi, CONFIG, "gitignore", True)
+        obs.append(Ob("R-ORDER", mkkey("R-ORDER", WALKER, GB_NEW, n, "gated:gitignore=True"), ok, q.loc_of(t), WALKER,
+                      "matcher built: %s" % why, None if ok else dict(block="bb%d" % bi)))
+        n += 1
+    if n == 0:
+        obs.append(anchor_ob("R-ORDER", "the walker role builds a GitignoreBuilder"))
+    # every GitignoreBuilder::new of the workspace is the walker's
+    k = 0
+    seen_sites = set(views.site(w, bi)[1:3] for bi, t in q.calls_to(w, GB_NEW))
     for f in ro.fns_in_scope(fx, crates=("libxcp",)):
         for bi, t in q.calls_to(f, GB_NEW):
-            n += 1
-            ok, why = q.gated(f, bi, CONFIG, "gitignore", True)
-            obs.append(Ob("R-ORDER", mkkey("R-ORDER", f.path, GB_NEW, 0, "gated:gitignore=True"), ok, q.loc_of(t), f.path,
-                          "matcher built: %s" % why, None if ok else dict(block="bb%d" % bi)))
-    if n == 0:
-        obs.append(anchor_ob("R-ORDER", "no GitignoreBuilder::new in libxcp"))
-    # without the option nothing is filtered: the `false` branch yields None
-    f = fx.fn("libxcp::paths::parse_ignore")
-    if f is not None:
-        for k, (u, v) in enumerate(ro.edge_target(f, CONFIG, "gitignore", False)):
-            region = edge_region(f, u, v) | {v}
-            r = q.callgraph(fx).reach(f.path, blocks=region)
-            ok = not any(x.startswith("ignore::") for x in r)
-            obs.append(Ob("R-ORDER", mkkey("R-ORDER", f.path, "gitignore=False", k, "no-matcher"), ok, f.loc(), f.path,
-                          "with gitignore off no matcher is built: %s" % ok, None if ok else dict(reach=sorted(r)[:10])))
+            if (t["span"]["file"], t["span"]["line"]) not in seen_sites:
+                obs.append(Ob("R-ORDER", mkkey("R-ORDER", f.path, GB_NEW, k, "outside-walker"), False, q.loc_of(t), f.path,
+                              "a gitignore matcher is built outside the walker role (its gating is not checked)"))
+                k += 1
+    # without the option nothing is filtered: the `false` branch builds no matcher
+    for k, (u, v) in enumerate(ro.edge_target(w, CONFIG, "gitignore", False)):
+        region = edge_region(w, u, v) | {v}
+        r = q.view_reach(fx, w, region)
+        ok = not any(x.startswith("ignore::") for x in r)
+        obs.append(Ob("R-ORDER", mkkey("R-ORDER", WALKER, "gitignore=False", k, "no-matcher"), ok, w.loc(), WALKER,
+                      "with gitignore off no matcher is built: %s" % ok, None if ok else dict(reach=sorted(x for x in r if x.startswith("ignore::"))[:10])))
     # roles: rooted at, and reading .gitignore of, the source root
     import p_role
     ro_obs = [o for o in p_role.role_obs(fx) if "GitignoreBuilder" in o.key or "parse_ignore" in o.key]
     if len(ro_obs) < 3:
         obs.append(anchor_ob("R-ROLE", "gitignore role sinks (found %d)" % len(ro_obs)))
     obs += ro_obs
-    # pruning with filter_entry, and the closure consults ignore_filter
-    w = fx.fn(WALKER)
-    fe = q.calls_to(w, "walkdir::IntoIter::filter_entry") if w else []
+    # pruning with filter_entry, and the closure consults the matcher
+    fe = q.calls_to(w, "walkdir::IntoIter::filter_entry")
     okf = False
     for bi, t in fe:
         for fv in t["fn"].get("fnvals", []):
-            if "libxcp::paths::ignore_filter" in q.callgraph(fx).reach(fv):
+            if MATCHED in q.callgraph(fx).reach(fv):
                 okf = True
     obs.append(Ob("R-TABLE", mkkey("R-TABLE", WALKER, "walkdir::IntoIter::filter_entry", 0, "prunes"), okf,
                   q.loc_of(fe[0][1]) if fe else "", WALKER,
-                  "the walk is pruned with filter_entry(ignore_filter): %s" % okf,
+                  "the walk is pruned with filter_entry(closure consulting Gitignore::matched): %s" % okf,
                   None if okf else dict(note="Iterator::filter would still descend into ignored directories")))
     # the walked iterator is the filtered one
-    if w is not None:
-        nx = [t for bi, t in w.calls() if (q.names(t)[1] or "").startswith("<walkdir::FilterEntry<")]
-        obs.append(Ob("R-TABLE", mkkey("R-TABLE", WALKER, "FilterEntry::next", 0, "iterated"), bool(nx), "", WALKER,
-                      "tree_walker iterates the FilterEntry adaptor: %s" % bool(nx)))
+    nx = [t for bi, t in w.calls() if (q.names(t)[1] or "").startswith("<walkdir::FilterEntry<")]
+    plain = [t for bi, t in w.calls() if (q.names(t)[1] or "").startswith("<walkdir::IntoIter as") and
+             q.names(t)[0] == "core::iter::traits::iterator::Iterator::next"]
+    obs.append(Ob("R-TABLE", mkkey("R-TABLE", WALKER, "FilterEntry::next", 0, "iterated"), bool(nx) and not plain, "", WALKER,
+                  "the walker iterates the FilterEntry adaptor (and no unfiltered walk): %s" % (bool(nx) and not plain)))
     # is_dir argument of matched: the entry's own type
     m = 0
     for f in ro.fns_in_scope(fx, crates=("libxcp",)):
@@ -834,41 +982,47 @@ def _update_sends(fx, f, variant):
 def c12(ctx):
     fx = ctx.fx("A")
     obs = []
-    w = fx.fn(WALKER)
+    import views
+    w = views.walker_view(fx)
+    if w is None:
+        ctx.add([anchor_ob("R-ORDER", "a thread role that iterates a WalkDir")])
+        return
     cfg = cfg_of(w)
     sizes = _update_sends(fx, w, "Size")
-    # every Size construction in the workspace
-    allsize = []
+    # every Size construction in the workspace (source sites), and the ones the walker role executes
+    allsize = set()
     for f in ro.fns_in_scope(fx, crates=("libxcp", "libfs")):
         for bi, b in enumerate(f.blocks):
             if b.get("cleanup"):
                 continue
             for s in b["stmts"]:
                 if s["rv"]["k"] == "agg" and s["rv"].get("adt") == STATUS_UPDATE and s["rv"]["variant"] == "Size":
-                    allsize.append((f.path, bi))
-    ok1 = len(allsize) == 1 and len(sizes) == 1
+                    allsize.add((s["span"]["file"], s["span"]["line"], s["span"].get("col")))
+    insize = set((sa["span"]["file"], sa["span"]["line"], sa["span"].get("col")) for sb, st, sa in sizes)
+    ok1 = len(allsize) == 1 and insize == allsize
     obs.append(Ob("R-ORDER", mkkey("R-ORDER", "libxcp", "StatusUpdate::Size", 0, "single-site"), ok1, w.loc(), WALKER,
-                  "StatusUpdate::Size is built at exactly one place, in the walker: %s" % allsize,
-                  None if ok1 else dict(sites=allsize)))
+                  "StatusUpdate::Size is built at exactly one place, and the walker role sends it: %s" % sorted(allsize),
+                  None if ok1 else dict(sites=sorted(allsize), in_walker=sorted(insize))))
     copies = []
-    for bi, t in q.calls_to(w, CB_SEND):
-        l = op_local(t["args"][1])
-        for site, whole in defuse(w).defs.get(l, []):
-            if not site.is_term and site.node["rv"]["k"] == "agg" and site.node["rv"].get("adt") == OPERATION \
-                    and site.node["rv"]["variant"] == "Copy":
-                copies.append((bi, t))
+    for bi, b in enumerate(w.blocks):
+        if b.get("cleanup"):
+            continue
+        for s_ in b["stmts"]:
+            if s_["rv"]["k"] == "agg" and s_["rv"].get("adt") == OPERATION and s_["rv"]["variant"] == "Copy":
+                copies.append((bi, s_))
     if not copies or not sizes:
-        obs.append(anchor_ob("R-ORDER", "walker sends Size and Operation::Copy"))
-    for n, (cb, ct) in enumerate(copies):
+        obs.append(anchor_ob("R-ORDER", "walker sends Size and builds Operation::Copy"))
+    for n, (cb, cs) in enumerate(copies):
+        cloc = "%s:%d" % (cs["span"]["file"], cs["span"]["line"])
         ok = any(cfg.dominates(sb, cb) and sb != cb for sb, st, sa in sizes)
-        obs.append(Ob("R-ORDER", mkkey("R-ORDER", WALKER, "Size-before-Copy", n), ok, q.loc_of(ct), WALKER,
-                      "the Size update is sent before the Copy operation is queued: %s" % ok,
+        obs.append(Ob("R-ORDER", mkkey("R-ORDER", WALKER, "Size-before-Copy", n), ok, cloc, WALKER,
+                      "the Size update is sent before the Copy operation is built (and so before it is queued): %s" % ok,
                       None if ok else dict(copy="bb%d" % cb, sizes=["bb%d" % x[0] for x in sizes])))
         # not in a loop between them: one Size per Copy
         for sb, st, sa in sizes:
             between_loop = cfg.can_reach(sb, sb, blocked=[cb])
             obs.append(Ob("R-ORDER", mkkey("R-ORDER", WALKER, "Size-once-per-Copy", n), not between_loop, q.loc_of(st), WALKER,
-                          "no path repeats the Size update without queuing the Copy: %s" % (not between_loop)))
+                          "no path repeats the Size update without building the Copy: %s" % (not between_loop)))
     for sb, st, sa in sizes:
         l = op_local(sa["rv"]["fields"][0])
         atoms, _f, _s = Prov(w).origins(l)
@@ -932,70 +1086,112 @@ def c12(ctx):
 # --------------------------------------------------------------------------
 
 def c16(ctx):
+    """Evaluated on main's inlined view: the validation may live in any helper."""
+    import views, p_gate
     fx = ctx.fx("A")
     obs = []
-    m = fx.fn(MAIN)
+    m = views.main_view(fx)
     if m is None:
         ctx.add([anchor_ob("R-WHO", MAIN)])
         return
     cfg = cfg_of(m)
     sp = q.calls_to(m, SPAWN)
-    if len(sp) != 1:
-        ctx.add([anchor_ob("R-WHO", "main starts the copy with exactly one thread::spawn (found %d)" % len(sp))])
+    spawn_sites = set(views.site(m, bi)[1:] for bi, t in sp)
+    if len(spawn_sites) != 1:
+        ctx.add([anchor_ob("R-WHO", "main starts the copy with exactly one thread::spawn (found %d)" % len(spawn_sites))])
         return
-    sb = sp[0][0]
+    sbs = [bi for bi, t in sp]
     # the spawned closure is the one that runs the driver
-    runs = any(DRIVER_COPY in q.callgraph(fx).reach(fv) for fv in sp[0][1]["fn"].get("fnvals", []))
+    runs = all(any(DRIVER_COPY in q.callgraph(fx).reach(fv) for fv in t["fn"].get("fnvals", [])) for bi, t in sp)
     obs.append(Ob("R-WHO", mkkey("R-WHO", MAIN, SPAWN, 0, "runs-driver"), runs, q.loc_of(sp[0][1]), MAIN,
                   "the spawned closure is what runs CopyDriver::copy: %s" % runs))
-    prefix = [b for b in cfg.reachable() if not cfg.dominates(sb, b)]
-    forb = set(MUTATING) | {DRIVER_COPY, WALKER, NEW}
-    obs += ro.region_forbids(fx, m, prefix, forb, "R-WHO",
-                             "nothing before the copy starts may touch the filesystem", tag="main-prefix")
+    prefix = [b for b in cfg.reachable() if not any(cfg.dominates(sb, b) for sb in sbs)]
+    forb = set(MUTATING) | {DRIVER_COPY}
+    obs += region_forbids_view(fx, m, prefix, forb, "R-WHO",
+                               "nothing before the copy starts may touch the filesystem", "main-prefix")
     # every rejection lies in the prefix
-    n = 0
+    seen_rej = {}
     for bi, b in enumerate(m.blocks):
         if b.get("cleanup"):
             continue
         for s in b["stmts"]:
             rv = s["rv"]
             if rv["k"] == "agg" and rv.get("adt") == "libxcp::errors::XcpError" and rv["variant"].startswith("Invalid"):
-                ok = bi in prefix
-                obs.append(Ob("R-ORDER", mkkey("R-ORDER", MAIN, "XcpError::" + rv["variant"], n, "in-prefix"), ok,
-                              "%s:%d" % (s["span"]["file"], s["span"]["line"]), MAIN,
-                              "rejection %s is decided before the copy starts: %s" % (rv["variant"], ok)))
-                n += 1
-    if n < 6:
-        obs.append(anchor_ob("R-ORDER", "rejections in main (found %d)" % n))
-    obs += ro.must_precede(fx, {"xcp::opts_check"}, {SPAWN}, "R-ORDER", "option check precedes the copy", crates=("xcp",))
-    obs += ro.must_precede(fx, {"xcp::expand_sources"}, {SPAWN}, "R-ORDER", "source expansion (glob errors) precedes the copy",
-                           crates=("xcp",))
-    # the validation loop runs over the expanded sources and completes before the spawn
+                k_ = (rv["variant"], s["span"]["file"], s["span"]["line"], s["span"].get("col"))
+                seen_rej[k_] = seen_rej.get(k_, True) and (bi in prefix)
+    for n, (k_, ok) in enumerate(sorted(seen_rej.items())):
+        obs.append(Ob("R-ORDER", mkkey("R-ORDER", MAIN, "XcpError::" + k_[0], n, "in-prefix"), ok,
+                      "%s:%d" % (k_[1], k_[2]), MAIN,
+                      "rejection %s is decided before the copy starts: %s" % (k_[0], ok)))
+    if len(seen_rej) < 6:
+        obs.append(anchor_ob("R-ORDER", "rejections in main (found %d)" % len(seen_rej)))
+    # the option conflict is rejected before the copy
+    obs += p_gate.force_conflict(fx)
+    # glob expansion (and its errors) happens before the copy starts and not after
+    GLOB = "glob::glob"
+    rest = [b for b in cfg.reachable() if b not in set(prefix)]
+    pre_r = q.view_reach(fx, m, prefix)
+    post_r = q.view_reach(fx, m, rest)
+    okg = GLOB in pre_r and GLOB not in post_r
+    obs.append(Ob("R-ORDER", mkkey("R-ORDER", MAIN, GLOB, 0, "before-copy"), okg, m.loc(), MAIN,
+                  "source patterns are expanded (glob errors surface) before the copy starts, never after: %s" % okg))
+    # the validation loop runs over the very list handed to the copy and completes before the spawn
+    du = defuse(m)
+    caps = set()
+    for bi, t in sp:
+        for fv in t["fn"].get("fnvals", []):
+            for b in m.blocks:
+                for s in b["stmts"]:
+                    if s["rv"]["k"] == "agg" and s["rv"].get("ak") == "closure" and s["rv"].get("closure") == fv:
+                        for o in s["rv"]["fields"]:
+                            l = op_local(o)
+                            if l is not None and "Vec<std::path::PathBuf" in m.locals[l]["ty"]:
+                                caps.add(l)
+    # aliases of the captured list by plain moves (backwards)
+    work = list(caps)
+    while work:
+        l = work.pop()
+        for site, whole in du.defs.get(l, []):
+            if not site.is_term and site.node["rv"]["k"] == "use":
+                p_ = op_place(site.node["rv"]["op"])
+                if p_ is not None and not p_.get("p") and p_["l"] not in caps:
+                    caps.add(p_["l"])
+                    work.append(p_["l"])
     loops = cfg.loops()
     it_ok = False
     for h, body in loops.items():
-        if sb in body:
+        if any(sb in body for sb in sbs):
             continue
-        # loop whose iterator derives from expand_sources' result
         for bi in body:
             t = m.blocks[bi]["term"]
             if t["k"] == "call" and callee_orig(t) == "core::iter::traits::iterator::Iterator::next":
-                c, a, ff = q.arg_origin_calls(m, t, 0, table={"core::iter::traits::collect::IntoIterator::into_iter": [0],
-                                                              "core::slice::<impl [T]>::iter": [0]})
-                if "xcp::expand_sources" in c and cfg.dominates(bi, sb):
+                l0 = op_local(t["args"][0])
+                if l0 is None:
+                    continue
+                atoms, ff, seen = Prov(m, table={"core::iter::traits::collect::IntoIterator::into_iter": [0],
+                                                 "core::slice::<impl [T]>::iter": [0],
+                                                 "core::ops::deref::Deref::deref": [0],
+                                                 "alloc::vec::Vec::<T, A>::as_slice": [0]}).origins(l0)
+                if seen & caps and all(cfg.dominates(bi, sb) for sb in sbs):
                     it_ok = True
     obs.append(Ob("R-ORDER", mkkey("R-ORDER", MAIN, "validate-all-sources", 0), it_ok, m.loc(), MAIN,
-                  "a loop over the expanded source list completes before the copy starts: %s" % it_ok))
+                  "a loop over the source list that is handed to the copy completes before the copy starts: %s" % it_ok))
     # the walk follows a symlink given as a source (walkdir follows root links), so the validation must too:
     # an lstat-based test accepts a dangling link, which then fails in the walker after earlier sources were copied
     k = 0
+    pset = set(prefix)
+    lsites = set()
     for bi, t in m.calls():
-        if bi in prefix and q.names(t)[0] in LSTAT and not q.span_excluded(t["span"]):
+        if bi in pset and q.names(t)[0] in LSTAT and not q.span_excluded(t["span"]):
+            sid = views.site(m, bi)
+            if sid in lsites:
+                continue
+            lsites.add(sid)
             obs.append(Ob("R-PROBE", mkkey("R-PROBE", MAIN, q.names(t)[0], k, "validation-follows-links"), False, q.loc_of(t), MAIN,
                           "source validation uses %s, which does not follow symlinks although the walk does" % q.names(t)[0].split("::")[-1],
                           dict(callee=q.names(t)[0])))
             k += 1
-    follows = [t for bi, t in m.calls() if bi in prefix and q.names(t)[0] in LINK_FOLLOWING]
+    follows = set(views.site(m, bi) for bi, t in m.calls() if bi in pset and q.names(t)[0] in LINK_FOLLOWING)
     obs.append(Ob("R-PROBE", mkkey("R-PROBE", MAIN, "source-probes", 0, "validation-follows-links"), bool(follows) and k == 0, m.loc(), MAIN,
                   "main validates sources with link-following probes (%d sites, %d lstat sites)" % (len(follows), k)))
     # same mapping rule in the pre-flight and in the walker
